@@ -25,7 +25,6 @@
 struct tpev_wait_in_s {
 	int32_t		cnt;	/* epoll_wait() return value: -1, 0 or 1 */
 	int32_t		err;	/* errno when cnt == -1 */
-	uint8_t		slot;	/* which kernel registration is reported when cnt == 1 */
 	uint32_t	events;	/* raw readiness bits (masked by the registration's interest set) */
 };
 
